@@ -25,10 +25,13 @@ type Builtin struct {
 	Examples int          // number of entries of a literal FuncDoc.Examples, -1 when not a literal
 	Type     *types.Named // struct type embedding slip.Function built by the creator
 	Creator  *ast.FuncLit
-	CreatorF *types.Func // creator given as a named function
-	HasSkip  bool
-	SkipEval []bool
-	SkipLit  bool
+	// CreatorName: the constant Name given to the slip.Function the creator builds ("" when absent or not constant)
+	CreatorName    string
+	CreatorNameSet bool
+	CreatorF       *types.Func // creator given as a named function
+	HasSkip        bool
+	SkipEval       []bool
+	SkipLit        bool
 	// ArgsFlows: the creator's List parameter is stored into Function.Args
 	ArgsFlows bool
 	Call      *types.Func
@@ -187,6 +190,10 @@ func (c *Ctx) fillCreator(b *Builtin, e ast.Expr) {
 					continue
 				}
 				switch k.Name {
+				case "Name":
+					if nm, ok := ConstString(p.TypesInfo, kv.Value); ok {
+						b.CreatorName, b.CreatorNameSet = nm, true
+					}
 				case "Args":
 					if id, ok := ast.Unparen(kv.Value).(*ast.Ident); ok && param != nil && p.TypesInfo.Uses[id] == param {
 						b.ArgsFlows = true
